@@ -419,7 +419,8 @@ def discharge(assumptions, goal, timeout_ms, name="ob"):
     import subprocess
     import tempfile
     s = z3.SimpleSolver()
-    quick = min(2000, int(timeout_ms)) if timeout_ms > 0 else 2000
+    inproc = int(os.environ.get("PYVC_INPROC_MS", "2000"))      # the retry pass of run.py raises this (machine under load)
+    quick = min(inproc, int(timeout_ms)) if timeout_ms > 0 else inproc
     s.set("timeout", quick)
     s.set("smt.mbqi", False)
     s.add(*assumptions)
